@@ -953,7 +953,7 @@ func c16R7(c *Ctx) {
 						}
 					}
 				}
-				if !used && strings.HasSuffix(n, ").Close") && (fn.Parent() != nil || fn.Name() == "Close") {
+				if !used && (strings.HasSuffix(n, ").Close") || strings.HasSuffix(n, ").Rollback")) && (fn.Parent() != nil || fn.Name() == "Close") {
 					c.OK(name, pos, "Close at shutdown / inside a deferred closure (tabulated idiom: no store state depends on it)")
 					continue
 				}
